@@ -18,6 +18,7 @@ macro_rules! props {
 
 pub mod asmcheck;
 pub mod asmrun;
+pub mod objrt;
 
 props! {
     "C01" => c01,
@@ -28,11 +29,17 @@ props! {
     "C06" => c06,
     "C07" => c07,
     "C15" => c15,
+    "C17" => c17,
+    "C18" => c18,
+    "C19" => c19,
     "C20" => c20,
+    "C21" => c21,
+    "C22" => c22,
     "C23" => c23,
     "C24" => c24,
     "C25" => c25,
     "C26" => c26,
+    "C29" => c29,
     "C35" => c35,
     "C36" => c36,
 }
